@@ -86,14 +86,17 @@ def corrupt(rng, spec):
 class C01(Prop):
     id = "C01"
     lean_module = "ProductMD.Properties.C01"
-    quick_budget = 900
+    quick_budget = 750
     thorough_budget = 20000
     rule = ("generated compose descriptions (all release/compose types, labels, layered/internal, forests to depth 4 with all variant "
             "types, layered-product releases, dashed top-level UIDs, child arches within the parent's, any subset of the 14 categories, "
             "stray/empty paths) built through the public API; oracle on the real library: dumps -> loads -> every public attribute "
             "equals norm(spec), second dumps byte-equal (every 7th case through dump(path)/load(path)); correspondence: real bytes == "
             "model bytes, real snapshot == model loads (own text and real text), same refusal class for corrupted descriptions; "
-            "non-trivial = written successfully")
+            "construction: styles of filling the objects (assign vs in-place add/update of arches and path dicts, add() before/after the "
+            "children) chosen per case, every third case assembles a second description interleaved in the same process; what the objects "
+            "hold after construction == what was put in, the bystander is untouched and round-trips too; path values incl. boundary "
+            "spellings (trailing/doubled/leading slash, ./, blanks, non-ASCII, long, line feed); non-trivial = written successfully")
     assumptions = ["json.load inverts json.dump on the documents the writer produces (stdlib; exercised by every case)",
                    "typed model: attributes hold values of the validated types; the object graph is a forest whose parent pointers mirror "
                    "the dicts (every object handed to add() once, while unplaced: the Fresh histories of C11). An object placed twice "
@@ -114,7 +117,12 @@ class C01(Prop):
                 kind, bad = corrupt(rng, spec)
                 yield {"op": "roundtrip", "args": {"spec": bad, "raw": True, "corrupt": kind, "file": False}}
             else:
-                yield {"op": "roundtrip", "args": {"spec": spec, "raw": False, "file": i % 5 == 3}}
+                args = {"spec": spec, "raw": False, "file": i % 5 == 3, "style": F.gen_style(rng)}
+                if i % 3 == 1:
+                    # a second description assembled in the same process, construction steps interleaved
+                    args["other"] = g.spec()
+                    args["other_style"] = F.gen_style(rng)
+                yield {"op": "roundtrip", "args": args}
 
     # ---- real side
     def real(self, case):
@@ -127,10 +135,18 @@ class C01(Prop):
         from productmd.composeinfo import ComposeInfo
         a = case["args"]
         out = {}
+        other = None
         try:
-            ci = F.build(a["spec"], raw=a.get("raw", False))
+            if a.get("other") is not None:
+                ci, other = F.build_interleaved([a["spec"], a["other"]], raws=[a.get("raw", False), False],
+                                                styles=[a.get("style"), a.get("other_style")])
+            else:
+                ci = F.build(a["spec"], raw=a.get("raw", False), style=a.get("style"))
         except Exception as e:  # noqa
             return {"build": checklib.err_class(e)}
+        out["built"] = F.snap(ci)                     # what the library holds after construction, before any write
+        if other is not None:
+            out["other_built"] = F.snap(other)
         if a.get("alias_top") is not None:
             # F26 region: an already placed child is handed to ci.variants.add() again (accepted against its stale parent)
             def find(c, uid):
@@ -175,6 +191,15 @@ class C01(Prop):
                 return out
             out["dumps"] = {"ok": text}
             out["after"] = F.snap(ci)                 # the description after writing (the writer forces is_layered on variants)
+            if other is not None:
+                out["other_after"] = F.snap(other)    # the bystander must not be touched by writing / reading the first one
+                try:
+                    t2 = other.dumps()
+                    c3 = ComposeInfo()
+                    c3.loads(t2)
+                    out["other_loads"] = {"ok": F.snap(c3)}
+                except Exception as e:  # noqa
+                    out["other_loads"] = checklib.err_class(e)
             try:
                 c2 = load(text)
             except Exception as e:  # noqa
@@ -246,6 +271,27 @@ class C01(Prop):
     # ---- the property itself, on the real library
     def oracle(self, case, real_out):
         a = case["args"]
+        # what the objects hold after construction is what was put in (any documented way of filling them, two
+        # descriptions assembled side by side)
+        if a.get("alias_top") is None and not a.get("raw"):
+            for key, spec_key in (("built", "spec"), ("other_built", "other")):
+                if real_out.get(key) is not None:
+                    diff = F.same_description(a[spec_key], real_out[key])
+                    if diff is not None:
+                        return {"observed": dict(first_diff(diff[0], diff[1]) or {}, which=spec_key, style=a.get("style"), other_style=a.get("other_style")),
+                                "required": "after construction through the public API the objects hold the description that was put in",
+                                "kind": "construction-differs"}
+        if real_out.get("other_after") is not None:
+            diff = F.same_description(a["other"], real_out["other_after"], force_layered=True)
+            if diff is not None:
+                return {"observed": first_diff(diff[0], diff[1]), "required": "writing/reading one compose leaves another one in the same process untouched",
+                        "kind": "cross-talk"}
+            ol = real_out.get("other_loads")
+            if (real_out.get("dumps") or {}).get("ok") is not None and isinstance(ol, dict) and "ok" in ol:
+                got2, want2 = F.canon(ol["ok"]), F.canon(F.norm(a["other"]))
+                if got2 != want2:
+                    return {"observed": dict(first_diff(got2, want2) or {}, which="other"),
+                            "required": "every documented field read back equal to what was written (normal form)", "kind": "fields-differ"}
         d = real_out.get("dumps")
         if not d or "ok" not in d:
             return None                                    # the library did not agree to write this description
@@ -358,6 +404,20 @@ class C01(Prop):
             s = copy.deepcopy(spec); s["release"]["internal"] = False; out.append(with_spec(s))
         if a.get("file"):
             c = copy.deepcopy(case); c["args"]["file"] = False; out.append(c)
+        if a.get("other") is not None:
+            c = copy.deepcopy(case); c["args"].pop("other"); c["args"].pop("other_style", None); out.append(c)
+            n2 = len(F.walk(a["other"]))
+            for i in range(n2):
+                c = copy.deepcopy(case)
+                v, p = F.walk(c["args"]["other"])[i]
+                (p["variants"] if p is not None else c["args"]["other"]["variants"]).remove(v)
+                out.append(c)
+        for k in ("style", "other_style"):
+            if a.get(k) and a[k] != F.DEFAULT_STYLE:
+                c = copy.deepcopy(case); c["args"][k] = dict(F.DEFAULT_STYLE); out.append(c)
+                for f in sorted(F.DEFAULT_STYLE):
+                    if a[k].get(f) != F.DEFAULT_STYLE[f]:
+                        c = copy.deepcopy(case); c["args"][k][f] = F.DEFAULT_STYLE[f]; out.append(c)
         return out
 
 
